@@ -76,14 +76,18 @@ fn derive(base: &[u8], trunc: Option<u32>, edits: &[(u32, u8, u32)]) -> Vec<u8> 
 }
 
 #[derive(Clone, Debug, PartialEq)]
-pub enum Res { Ok, Err, Panic(String), Crash(String), Timeout }
+pub enum Res { Ok, Err, Panic(String), Crash(String), Timeout, /// the parser returned a value that breaks a limit the parser documents (bounded work / memory)
+	Limit(String) }
 impl Res {
 	pub fn bad(&self) -> bool { !matches!(self, Res::Ok | Res::Err) }
-	pub fn token(&self) -> &'static str { match self { Res::Ok => "ok", Res::Err => "err", Res::Panic(_) => "panic", Res::Crash(_) => "crash", Res::Timeout => "timeout" } }
-	pub fn detail(&self) -> String { match self { Res::Panic(m) | Res::Crash(m) => m.clone(), Res::Timeout => "no answer within the time limit".into(), _ => String::new() } }
+	pub fn token(&self) -> &'static str { match self { Res::Ok => "ok", Res::Err => "err", Res::Panic(_) => "panic", Res::Crash(_) => "crash", Res::Timeout => "timeout", Res::Limit(_) => "limit" } }
+	pub fn detail(&self) -> String { match self { Res::Panic(m) | Res::Crash(m) | Res::Limit(m) => m.clone(), Res::Timeout => "no answer within the time limit".into(), _ => String::new() } }
 }
 #[derive(Clone, Debug)]
-pub struct Outcome { pub res: Res, pub write: Option<Res>, pub peak: u64, pub big: u64, pub micros: u64, pub confirmed: bool }
+pub struct Outcome { pub res: Res, pub write: Option<Res>, pub peak: u64, pub big: u64, pub micros: u64, pub confirmed: bool,
+	/// a number the parser run reports about its result (class reader: the largest number of bootstrap
+	/// arguments, counting nested ones, that one instruction of the tree carries)
+	pub aux: u64 }
 
 // ---------------------------------------------------------------- batch file
 fn put32(v: &mut Vec<u8>, x: u32) { v.extend_from_slice(&x.to_le_bytes()); }
@@ -139,7 +143,7 @@ pub fn cpu_ms() -> u64 {
 fn clean(s: &str) -> String { s.chars().map(|c| if c == '\n' || c == '\t' || c == '\r' { ' ' } else { c }).take(300).collect() }
 
 /// `c16 --child <batchfile>`: run every record, print one line per record
-pub fn child_main(batch: &Path, run_one: fn(u8, &[u8], &Path) -> (Res, Option<Res>)) -> ! {
+pub fn child_main(batch: &Path, run_one: fn(u8, &[u8], &Path) -> (Res, Option<Res>, u64)) -> ! {
 	std::panic::set_hook(Box::new(|_| {}));
 	let data = std::fs::read(batch).expect("batch file");
 	let scratch = PathBuf::from(format!("{}.scratch", batch.display()));
@@ -177,7 +181,7 @@ pub fn child_main(batch: &Path, run_one: fn(u8, &[u8], &Path) -> (Res, Option<Re
 		let cpu0 = cpu_ms();
 		STARTED_CPU_MS.store(cpu0, Ordering::SeqCst);
 		STARTED_MS.store((t0.elapsed().as_millis() as u64).max(1), Ordering::SeqCst);
-		let (res, wres) = run_one(kind, &bytes, &scratch);
+		let (res, wres, aux) = run_one(kind, &bytes, &scratch);
 		STARTED_MS.store(0, Ordering::SeqCst);
 		// CPU time where it is measurable (10 ms ticks), else wall time; never more than wall time
 		let wall = t.elapsed().as_micros() as u64;
@@ -185,9 +189,9 @@ pub fn child_main(batch: &Path, run_one: fn(u8, &[u8], &Path) -> (Res, Option<Re
 		let micros = if cpu > 0 { cpu.min(wall) } else { wall.min(10_000) };
 		let peak = PEAK.load(Ordering::Relaxed).saturating_sub(base_mem);
 		let big = BIG.load(Ordering::Relaxed);
-		let msg = match (&res, &wres) { (Res::Panic(m), _) => clean(m), (_, Some(Res::Panic(m))) => clean(m), _ => String::new() };
+		let msg = match (&res, &wres) { (Res::Panic(m) | Res::Limit(m), _) => clean(m), (_, Some(Res::Panic(m))) => clean(m), _ => String::new() };
 		let out = std::io::stdout(); let mut out = out.lock();
-		let _ = writeln!(out, "E {i} {} {} {peak} {big} {micros}\t{msg}", res.token(), wres.as_ref().map(|w| w.token()).unwrap_or("-"));
+		let _ = writeln!(out, "E {i} {} {} {peak} {big} {micros} {aux}\t{msg}", res.token(), wres.as_ref().map(|w| w.token()).unwrap_or("-"));
 		let _ = out.flush();
 	}
 	let _ = std::fs::remove_file(&scratch);
@@ -236,8 +240,8 @@ fn run_batch(exe: &Path, dir: &Path, tag: &str, bases: &[Vec<u8>], inputs: &[&In
 				let (head, msg) = rest.split_once('\t').unwrap_or((rest, ""));
 				let f: Vec<&str> = head.split(' ').collect();
 				if f.len() < 6 { continue; }
-				let mk = |t: &str| match t { "ok" => Res::Ok, "err" => Res::Err, _ => Res::Panic(msg.to_string()) };
-				out.push(Outcome { res: mk(f[1]), write: if f[2] == "-" { None } else { Some(mk(f[2])) }, peak: f[3].parse().unwrap_or(0), big: f[4].parse().unwrap_or(0), micros: f[5].parse().unwrap_or(0), confirmed: true });
+				let mk = |t: &str| match t { "ok" => Res::Ok, "err" => Res::Err, "limit" => Res::Limit(msg.to_string()), _ => Res::Panic(msg.to_string()) };
+				out.push(Outcome { res: mk(f[1]), write: if f[2] == "-" { None } else { Some(mk(f[2])) }, peak: f[3].parse().unwrap_or(0), big: f[4].parse().unwrap_or(0), micros: f[5].parse().unwrap_or(0), confirmed: true, aux: f.get(6).and_then(|x| x.parse().ok()).unwrap_or(0) });
 				done += 1; started = None;
 			}
 		}
@@ -246,7 +250,7 @@ fn run_batch(exe: &Path, dir: &Path, tag: &str, bases: &[Vec<u8>], inputs: &[&In
 		let _ = started;
 		let (is_to, text) = if timed_out { (true, String::new()) } else { describe_exit(&o.status, &stderr) };
 		let res = if is_to { Res::Timeout } else { Res::Crash(text) };
-		out.push(Outcome { res, write: None, peak: 0, big: 0, micros: 0, confirmed: false });
+		out.push(Outcome { res, write: None, peak: 0, big: 0, micros: 0, confirmed: false, aux: 0 });
 		start += done + 1;
 	}
 	let _ = std::fs::remove_file(&path);
@@ -264,7 +268,9 @@ pub fn run_all(dir: &Path, bases: &[Vec<u8>], inputs: &[Input], jobs: usize) -> 
 	let (mut s, mut bytes) = (0usize, 0usize);
 	for (i, inp) in inputs.iter().enumerate() {
 		let l = match &inp.form { Form::Raw(b) => b.len(), Form::Derived { edits, .. } => 16 + 9 * edits.len() };
-		if i > s && (i - s >= 4000 || bytes + l > 24 << 20) { batches.push((s, i)); s = i; bytes = 0; }
+		// inputs that cost tens of milliseconds each (65536 expanded bootstrap arguments) go in small batches so that they spread over the jobs
+		let heavy = inp.shape == "bootstrap-multi-argument";
+		if i > s && (i - s >= 4000 || bytes + l > 24 << 20 || (heavy && i - s >= 10)) { batches.push((s, i)); s = i; bytes = 0; }
 		bytes += l;
 	}
 	if s < inputs.len() { batches.push((s, inputs.len())); }
